@@ -191,6 +191,24 @@ void gen_mixed(Plan& p, Rng& r)
         }
     }
 }
+void gen_table(Plan& p, Rng& r, bool hostile)
+{
+    p.cfg.schema = 11 + (int)r.below(7);
+    p.cfg.table_api = true;
+    p.cfg.checks = CK_TABLE | CK_RELOAD | (r.chance(1, 4) ? CK_PURITY : 0);
+    p.cfg.gf.many_slots = hostile;  // blob values outside the encodable domain (long labels, non-finite doubles)
+    int n = 5 + (int)r.below(16);
+    p.steps.push_back(mk("t_add", r, 0, draw_size(r)));
+    std::vector<unsigned> w = {14, 8, 30, 5, 5, 3, 10, 9, 5, 8, 4, 2, 3, 2};
+    for (auto& x : w)
+        if (r.chance(1, 6))
+            x = 0;
+    static const char* ops[] = {"t_add", "t_update", "t_setcol", "t_remove", "t_rewrite", "t_missing", "p_add",
+                                "p_update", "p_remove", "e_add", "e_remove", "e_clear", "reload", "clock"};
+    for (int i = 0; i < n; ++i)
+        p.steps.push_back(mk(ops[r.weighted(w)], r, 4, draw_size(r)));
+}
+
 void gen_atomic(Plan& p, Rng& r)
 {
     p.cfg.on_disk = true;
@@ -275,6 +293,10 @@ Plan generate_plan(const std::string& profile_in, uint64_t seed)
         gen_mixed(p, r);
     else if (profile == "atomic")
         gen_atomic(p, r);
+    else if (profile == "table")
+        gen_table(p, r, false);
+    else if (profile == "tableh")
+        gen_table(p, r, true);
     else
         throw std::runtime_error("unknown profile " + profile_in);
     if (disk)
